@@ -70,7 +70,7 @@ def build_coq(targets=None):
 def _limit_memory():
     # a call that allocates without bound must kill its own harness process (reported as a crash), not the machine
     import resource
-    resource.setrlimit(resource.RLIMIT_AS, (6 << 30, 6 << 30))
+    resource.setrlimit(resource.RLIMIT_AS, (24 << 30, 24 << 30))
 
 
 def _run_chunk(fam, lines, timeout):
